@@ -89,12 +89,21 @@ func runC16(c *fw.Ctx) int {
 				want := expectedFileNames(g)
 				got := append([]string{}, g.FMFiles...)
 				sort.Strings(got)
-				if strings.Join(got, ",") != strings.Join(want, ",") {
+				dup := ""
+				for i := 1; i < len(got); i++ {
+					if got[i] == got[i-1] {
+						dup = got[i]
+					}
+				}
+				if dup != "" {
+					outcome = "file-written-twice"
+					c.Violate(fw.Violation{Stream: "generate", Signature: "gen/file-names/same-lowercase-short-name", What: "two messages of the file are written to one output file name (the response names the same file twice; protoc rejects it)", Input: desc, Expected: "distinct names", Got: dup})
+				} else if strings.Join(got, ",") != strings.Join(want, ",") {
 					outcome = "file-names"
 					c.Violate(fw.Violation{Stream: "generate", Signature: "gen/file-names/" + g.Variant.Name(), What: "output files are not written once each under their documented, distinct names", Input: desc, Expected: strings.Join(want, ","), Got: strings.Join(got, ",")})
 				}
 				// determinism: identical request, different working directory / environment / parallelism
-				if again := rerun(bc.plugins, g); again != "" {
+				if again := rerun(bc.plugins, g); again != "" && dup == "" {
 					outcome = "nondeterministic"
 					c.Violate(fw.Violation{Stream: "generate", Signature: "gen/nondeterministic", What: "two runs on identical requests produced different output", Input: desc, Got: again})
 				}
